@@ -348,10 +348,16 @@ func visitInstr(fr *frame, instr ssa.Instruction) continuation {
 		// Deterministic schedule: the new goroutine runs to completion at once.
 		fn, args := prepareCall(fr, &instr.Call)
 		fr.i.ctx.w.intr["<go inline>"]++
-		call(fr.i, nil, instr.Pos(), fn, args)
+		func() {
+			fr.i.ctx.goDepth++
+			defer func() { fr.i.ctx.goDepth-- }()
+			call(fr.i, nil, instr.Pos(), fn, args)
+		}()
 
 	case *ssa.MakeChan:
-		fr.env[instr] = &chanObj{cap: int(asInt64(fr.conc(fr.get(instr.Size))))}
+		ch := &chanObj{cap: int(asInt64(fr.conc(fr.get(instr.Size))))}
+		fr.i.ctx.chans = append(fr.i.ctx.chans, ch)
+		fr.env[instr] = ch
 
 	case *ssa.Alloc:
 		var addr *value
